@@ -24,6 +24,7 @@ func runC02(c *Ctx) {
 	R.Rule("C02.R3", "every attribute appended anywhere in sanitizeAttrs is a range element of an earlier attribute list (possibly with its Val rewritten) or a synthesised attribute whose Key is one of the constants rel, target, crossorigin, sandbox")
 	R.Rule("C02.R4", "bare elements: in the StartTag and SelfClosingTag arms a tag is written only if an attribute survived or allowNoAttrs(token.Data); allowNoAttrs returns true only across a lookup in the bare-element set or a MatchString of a registered bare-element pattern on its argument")
 	R.Rule("C02.R5", "argument provenance: sanitizeAttrs is called with (token.Data, token.Attr, rules) where rules is the value found in elsAndAttrs[token.Data] or returned by matchRegex(token.Data), and its result is stored back into token.Attr")
+	R.Rule("C02.R7", "each incoming attribute is kept at most once: no path through one iteration of the filter loop appends twice")
 	R.Rule("C02.R6", "isDataAttribute accepts only data-<non-empty>, without upper-case letters or ';', not starting with xml (exact language computation on the three regexps and the Split segmentation)")
 	R.Assume(TrustGo, TrustTokenizer, TrustRegexp, "quality of user-supplied value patterns is out of scope; duplicated attributes / exotic attribute-name bytes as re-read by a parser are not decided")
 	F := model.FindFields(c.P)
@@ -277,6 +278,7 @@ func runC02(c *Ctx) {
 	c02Bare(c, F)
 	c02Provenance(c, F)
 	c02DataAttr(c)
+	keptAtMostOnce(c, "C02.R7")
 }
 
 func c02Bare(c *Ctx, F *model.Fields) {
@@ -627,4 +629,63 @@ func isLenCall(v ssa.Value) bool {
 	}
 	bi, ok := cl.Common().Value.(*ssa.Builtin)
 	return ok && bi.Name() == "len"
+}
+
+// keptAtMostOnce: in the filter loop of sanitizeAttrs an incoming attribute is appended to the kept list at most once
+// per iteration.  (Kept twice, the output carries a duplicate attribute; sanitising that output keeps each copy twice
+// again, so the attribute count doubles with every pass.)
+func keptAtMostOnce(c *Ctx, rule string) {
+	R := c.R
+	fn := c.P.Func(load.ModPath, "(*Policy).sanitizeAttrs")
+	if fn == nil || len(fn.Params) != 4 {
+		R.Unknown(rule, "once", "(*Policy).sanitizeAttrs", "", "function not found")
+		return
+	}
+	var loop *model.RangeLoop
+	for _, l := range model.SliceRangeLoops(fn) {
+		if l.Over == ssa.Value(fn.Params[2]) {
+			loop = l
+		}
+	}
+	if loop == nil {
+		R.Unknown(rule, "once", "(*Policy).sanitizeAttrs: range over the incoming attributes", "", "loop not found (anchor lost)")
+		return
+	}
+	A := model.NewAnalysis(fn)
+	translateAll(A)
+	ev := A.EventVar("attribute-kept-in-this-iteration")
+	A.PhiFilter = func(*ssa.Phi) bool { return false }
+	q, err := A.NewQuery([]int{ev})
+	if err != nil {
+		R.Unknown(rule, "once", "(*Policy).sanitizeAttrs filter loop", "", err.Error())
+		return
+	}
+	var sites []*ssa.Call
+	for _, b := range sortedBlocks(loop.Blocks) {
+		for _, in := range b.Instrs {
+			cl, ok := in.(*ssa.Call)
+			if !ok {
+				continue
+			}
+			if ac, _ := model.IsAppend(cl); ac == nil {
+				continue
+			}
+			if v := model.AppendedValue(cl); v == nil || !model.IsAttrType(v.Type()) {
+				continue
+			}
+			sites = append(sites, cl)
+			q.Hooks[cl] = func(a uint32) []uint32 { return []uint32{q.With(a, ev, true)} }
+		}
+	}
+	q.Barrier[loop.Header] = true
+	q.Run(loop.Body, q.InitWith(map[int]bool{ev: false}))
+	for i, cl := range sites {
+		st := q.StateAt(cl)
+		if st == nil || pa.Empty(st) {
+			continue
+		}
+		ok, _ := q.Holds(st, pa.Not(pa.AtomF(ev)))
+		R.Check(ok, rule, fmt.Sprintf("once:append#%d", i+1), "(*Policy).sanitizeAttrs filter loop: append of an attribute", c.P.Pos(cl.Pos()), "no earlier append in the same iteration", "an attribute that was already kept in this iteration can be kept again (control continues to a second rule scope after a match): the output carries it twice")
+	}
+	R.Role(rule, "appends in the filter loop", len(sites), 3)
 }
